@@ -135,7 +135,7 @@ def expectedSite : PC → String × String
   | .usReLd _ _ | .usReCas _ _ _ | .mwEnqLd _ | .mwEnqCas _ _ => ("common.c", "nsync_spin_test_and_set_")
   | .mwLd0 _ | .mwEval _ | .mwStW _ | .mwRcLd _ | .mwRelLd _ | .mwRelCas _ _ _ | .mwWaitLd _ | .mwSem _ | .mwPdRet _ _
   | .mwNotify _ | .mwLd244 _ | .mwLd255 _ | .mwRet _ _ => ("mu_wait.c", "nsync_mu_wait_with_deadline")
-  | .mtLd _ | .mtCasAcq _ _ | .mtCasWW _ _ | .mtLdW _ _ | .mtLdRc _ _ | .mtStW _ _ | .mtStRel _ _ _ =>
+  | .mtLd _ | .mtCasAcq _ _ | .mtCasWW _ _ | .mtLdWk _ _ | .mtLdW _ _ | .mtLdRc _ _ | .mtStW _ _ | .mtStRel _ _ _ =>
     ("mu_wait.c", "mu_try_acquire_after_timeout_or_cancel")
 
 /-- Feed one model event for mutex `m` to one candidate. -/
